@@ -70,8 +70,11 @@ def to_xmlgen(m, preamble=PREAMBLE):
     return {"decl": m.get("_decl_text", preamble + "".join(d + "\n" for d in m["gdecl"])), "templates": templates, "system": m.get("_system_text", system_text(m))}
 
 
+SYS_PREAMBLE = "typedef int[0,1] sys_t;\nint sysv;"
+
+
 def system_text(m):
-    lines = []
+    lines = [SYS_PREAMBLE]
     for i in m["insts"]:
         own = "(%s)" % ", ".join(i["own"]) if i["own"] else ""
         lines.append("%s%s = %s(%s);" % (i["name"], own, i["base"], ", ".join(i["args"])))
